@@ -126,6 +126,25 @@ class Return(Exception):
         self.v = v
 
 
+class _Break(Exception):
+    pass
+
+
+class _Continue(Exception):
+    pass
+
+
+@dataclass(eq=False)
+class _Const:
+    v: Any
+
+
+@dataclass(eq=False)
+class Closure:
+    fi: Any
+    frame: Any
+
+
 class Raised(Exception):
     """the interpreted program raises"""
 
@@ -156,6 +175,23 @@ class Frame:
 
 # -------------------------------------------------------------- alias table
 NUMPY_ALIAS = {
+    "zeros_like": "zeros_like",
+    "ones_like": "ones_like",
+    "full_like": "full_like",
+    "asarray": "ident",
+    "array": "copy",
+    "atleast_1d": "atleast_1d",
+    "copy": "copy",
+    "where": "ite",
+    "clip": "clip",
+    "sqrt": "sqrt",
+    "divide": "div",
+    "multiply": "mul",
+    "add": "add",
+    "subtract": "sub",
+    "negative": "neg",
+    "concatenate": "hstack",
+    "float64": "ident",
     "sum": "sum0",
     "square": "square",
     "power": "pow",
@@ -166,6 +202,14 @@ NUMPY_ALIAS = {
     "hstack": "hstack",
 }
 CASADI_ALIAS = {
+    "sqrt": "sqrt",
+    "times": "mul",
+    "plus": "add",
+    "minus": "sub",
+    "rdivide": "div",
+    "SX": "ident",
+    "MX": "ident",
+    "DM": "ident",
     "sum1": "sum",
     "power": "pow",
     "exp": "exp",
@@ -209,6 +253,18 @@ class Interp:
     # ------------------------------------------------------------ calling
     def call_function(self, fv: FuncV, args: list, kwargs: dict, node=None):
         fi = fv.fi
+        if isinstance(fi.node, ast.FunctionDef):
+            for d in fi.node.decorator_list:
+                dn = (dotted_name(d.func if isinstance(d, ast.Call) else d) or "").split(".")[-1]
+                if dn in ("cache", "lru_cache", "cached_property") and not (
+                    fi.cls or "").endswith(":Network"):
+                    self.event("memoised", fi.node,
+                               f"`{fi.qualname}` is memoised (@{dn}): its result is reused across steps "
+                               "and network changes", data=fi.qualname)
+                elif dn not in ("staticmethod", "classmethod", "property", "abstractmethod", "wraps",
+                                "cache", "lru_cache", "cached_property", "invalidate_cache", "setter",
+                                "override", "overload"):
+                    raise self.err(fi.node, f"decorator @{dn} on an analysed function is not modelled")
         self.depth += 1
         if self.depth > 40:
             raise self.err(node or fi.node, "call depth exceeded")
@@ -233,7 +289,7 @@ class Interp:
         params = [x.arg for x in a.posonlyargs + a.args]
         env: dict = {}
         args = list(args)
-        if fv.self_obj is not None and not fi.is_static():
+        if fv.self_obj is not None and not (isinstance(fi.node, ast.FunctionDef) and fi.is_static()):
             args = [fv.self_obj] + args
         defaults = list(a.defaults)
         ndef = len(defaults)
@@ -362,8 +418,94 @@ class Interp:
                 raise self.err(st, "unsupported delete")
             return
         if isinstance(st, (ast.Import, ast.ImportFrom)):
+            for a in st.names:
+                nm = a.asname or a.name.split(".")[0]
+                full = (st.module + "." + a.name) if isinstance(st, ast.ImportFrom) and st.module else a.name
+                fr.env[nm] = self.resolve_import(full, fr, st)
+            return
+        if isinstance(st, ast.Try):
+            self.exec_try(st, fr)
+            return
+        if isinstance(st, ast.While):
+            n = 0
+            while self.truth(self.eval(st.test, fr), st.test, fr):
+                n += 1
+                if n > 64:
+                    raise self.err(st, "while loop does not terminate within 64 iterations")
+                try:
+                    self.exec_block(st.body, fr)
+                except _Break:
+                    break
+                except _Continue:
+                    continue
+            return
+        if isinstance(st, ast.Break):
+            raise _Break()
+        if isinstance(st, ast.Continue):
+            raise _Continue()
+        if isinstance(st, ast.FunctionDef):
+            from .front import FunctionInfo
+            fi = FunctionInfo(fr.fi.module if fr.fi else "", (fr.fi.qualname + ".<locals>." if fr.fi else "") + st.name, st, cls=None)
+            fr.env[st.name] = Closure(fi, fr)
+            return
+        if isinstance(st, (ast.Global, ast.Nonlocal)):
+            return
+        if isinstance(st, ast.With):
+            for item in st.items:
+                v = self.eval(item.context_expr, fr)
+                if item.optional_vars is not None:
+                    self.assign(item.optional_vars, v, fr)
+            self.exec_block(st.body, fr)
             return
         raise self.err(st, f"unsupported statement {type(st).__name__}")
+
+    def exec_try(self, st: ast.Try, fr: Frame):
+        try:
+            try:
+                self.exec_block(st.body, fr)
+            except Raised as r:
+                for h in st.handlers:
+                    if self._handler_matches(h, r.exc, fr):
+                        # the failure was anticipated by the program: drop the
+                        # events recorded for it
+                        self.events = [e for e in self.events if e.node is not r.node or e.kind not in ("assert-fails", "stop-iteration", "none-arith", "call-shape")]
+                        if h.name:
+                            fr.env[h.name] = Builtin(f"<exception {r.exc}>")
+                        self.exec_block(h.body, fr)
+                        break
+                else:
+                    raise
+            else:
+                self.exec_block(st.orelse, fr)
+        finally:
+            if st.finalbody:
+                self.exec_block(st.finalbody, fr)
+
+    def _handler_matches(self, h, exc: str, fr) -> bool:
+        if h.type is None:
+            return True
+        names = []
+        ts = h.type.elts if isinstance(h.type, ast.Tuple) else [h.type]
+        for t in ts:
+            names.append((dotted_name(t) or "").split(".")[-1])
+        exc = exc.split(".")[-1]
+        if exc in names or "Exception" in names or "BaseException" in names:
+            return True
+        fam = {"KeyError": "LookupError", "IndexError": "LookupError", "ZeroDivisionError": "ArithmeticError",
+               "AxisError": "ValueError"}
+        return fam.get(exc) in names
+
+    def resolve_import(self, full, fr, node):
+        root = full.split(".")[0]
+        if root in ("numpy", "casadi", "networkx"):
+            return ExtMod(full)
+        tgt = self.prog._resolve_dotted(full, set())
+        if tgt is not None:
+            if tgt in self.prog.classes:
+                return ClassV(tgt)
+            mod, _, q = tgt.partition(":")
+            return FuncV(self.prog.function(mod, q))
+        return ExtMod(full)
 
     def exec_for(self, st: ast.For, fr: Frame):
         it = self.eval(st.iter, fr)
@@ -389,7 +531,12 @@ class Interp:
             return
         for x in self.iterate(it, st.iter, fr):
             self.assign(st.target, x, fr)
-            self.exec_block(st.body, fr)
+            try:
+                self.exec_block(st.body, fr)
+            except _Break:
+                break
+            except _Continue:
+                continue
 
     def iterate(self, it, node, fr) -> list:
         if isinstance(it, Coll):
@@ -433,6 +580,10 @@ class Interp:
                     self.world.on_setattr(self, o, target.attr, v, target)
                 o.attrs[target.attr] = v
                 return
+            if isinstance(o, ExtMod) and self.world is not None:
+                r = self.world.on_module_store(self, o.name, target.attr, v, target)
+                if r is not NotImplemented:
+                    return
             raise self.err(target, "attribute store on non-object")
         if isinstance(target, ast.Subscript):
             c = self.eval(target.value, fr)
@@ -953,6 +1104,16 @@ class Interp:
                 raise Raised("AttributeError", node, fr.fi, f"super() has no {attr}")
             return FuncV(m, o.obj, defcls=m.cls)
         if isinstance(o, ExtMod):
+            if self.world is not None:
+                r = self.world.module_attr(self, o.name, attr, node)
+                if r is not NotImplemented:
+                    return r
+            tgt = self.prog._resolve_dotted(o.name + "." + attr, set())
+            if tgt is not None:
+                if tgt in self.prog.classes:
+                    return ClassV(tgt)
+                mod, _, q = tgt.partition(":")
+                return FuncV(self.prog.function(mod, q))
             return ExtMod(o.name + "." + attr)
         if isinstance(o, TV):
             if attr == "shape":
@@ -963,6 +1124,10 @@ class Interp:
                     raise Raised("ValueError", node, fr.fi, str(e))
             if attr in ("T",):
                 return o
+            if attr == "copy":
+                return _Const(TV(o.t, o.rank, True, ""))
+            if attr in ("size", "size1"):
+                raise self.err(node, f"attribute {attr} of a symbolic value")
             raise self.err(node, f"attribute {attr} of a symbolic value")
         if isinstance(o, dict):
             if attr in ("get", "items", "keys", "values", "update", "pop", "setdefault", "copy", "clear"):
@@ -1133,6 +1298,10 @@ class Interp:
                 if r is not NotImplemented:
                     return r
             return self.call_function(f, args, kwargs, n)
+        if isinstance(f, Closure):
+            return self.call_closure(f, args, kwargs, n)
+        if isinstance(f, _Const):
+            return f.v
         if isinstance(f, Builtin):
             return self.call_builtin(f.name, args, kwargs, n, fr)
         if isinstance(f, ExtMod):
@@ -1150,6 +1319,38 @@ class Interp:
             if r is not NotImplemented:
                 return r
         raise self.err(n, f"call of {type(f).__name__}")
+
+    def call_closure(self, c: Closure, args, kwargs, node):
+        fv = FuncV(c.fi, None)
+        self.depth += 1
+        if self.depth > 40:
+            raise self.err(node, "call depth exceeded")
+        try:
+            env = dict(c.frame.env)
+            env.update(self.bind_args(fv, args, kwargs, node))
+            fr = Frame(c.frame.fi, env, defcls=c.frame.defcls, self_obj=c.frame.self_obj)
+            self.stack.append(fr)
+            try:
+                if isinstance(c.fi.node, ast.Lambda):
+                    return self.eval(c.fi.node.body, fr)
+                self.exec_block(c.fi.node.body, fr)
+            except Return as r:
+                return r.v
+            finally:
+                self.stack.pop()
+            return None
+        finally:
+            self.depth -= 1
+
+    def e_Lambda(self, n, fr):
+        from .front import FunctionInfo
+        fi = FunctionInfo(fr.fi.module if fr.fi else "", "<lambda>", n, cls=None)
+        return Closure(fi, fr)
+
+    def e_NamedExpr(self, n, fr):
+        v = self.eval(n.value, fr)
+        self.assign(n.target, v, fr)
+        return v
 
     # -------------------------------------------------------------- builtins
     def call_builtin(self, name, args, kwargs, n, fr):
@@ -1199,7 +1400,10 @@ class Interp:
             v = args[0]
             if isinstance(v, Coll):
                 if v.card == "many":
-                    raise self.err(n, "iter() over an abstract collection of unknown size")
+                    self.event("order-pick", n,
+                               f"a single member is picked from the {v.domain} collection, which has "
+                               "several members: the result depends on insertion order", data=v.domain)
+                    return IterV(list(v.members))
                 return IterV(list(v.members))
             return IterV(self.iterate(v, n, fr))
         if name == "next":
@@ -1324,8 +1528,54 @@ class Interp:
                 if r is not NotImplemented:
                     return r
             raise self.err(n, f"library call {name} is not in the alias table")
+        out_target = None
         if kwargs:
-            raise self.err(n, f"keyword arguments to {name} are not modelled")
+            if set(kwargs) == {"out"} and lib == "numpy":
+                out_target = kwargs["out"]
+                kwargs = {}
+            elif set(kwargs) <= {"axis"} and canon == "sum0":
+                args = [args[0], kwargs["axis"]]
+                kwargs = {}
+            elif set(kwargs) <= {"axis"} and canon == "hstack" and kwargs.get("axis") in (0, None):
+                kwargs = {}
+            else:
+                raise self.err(n, f"keyword arguments {sorted(kwargs)} to {name} are not modelled")
+        if out_target is not None:
+            if isinstance(out_target, TV):
+                if not out_target.fresh:
+                    self.event("mutates-shared", n,
+                               f"`{short(n, 60)}` writes its result into `out=`, which may alias data "
+                               f"owned by the caller or an element state ({out_target.origin or E.fmt(out_target.t, 60)})")
+            elif out_target is not None:
+                raise self.err(n, "out= of an unsupported value")
+        if canon == "ident":
+            return args[0]
+        if canon == "copy":
+            x = self.to_tv(args[0], n)
+            return TV(x.t, x.rank, True, "")
+        if canon == "atleast_1d":
+            x = self.to_tv(args[0], n)
+            return TV(x.t, 1, x.fresh, x.origin)
+        if canon in ("zeros_like", "ones_like"):
+            x = self.to_tv(args[0], n)
+            c = E.ZERO if canon == "zeros_like" else E.ONE
+            return TV(E.add(E.mul(E.ZERO, x.t), c), x.rank or 0, True)
+        if canon == "full_like":
+            x = self.to_tv(args[0], n)
+            f = self.to_tv(args[1], n)
+            return TV(E.add(E.mul(E.ZERO, x.t), f.t), x.rank or 0, True)
+        if canon == "clip":
+            x, lo, hi = (self.to_tv(a, n) for a in args[:3])
+            return TV(("max", lo.t, ("min", x.t, hi.t)), x.rank or 0, True)
+        if canon == "sqrt":
+            x = self.to_tv(args[0], n)
+            return TV(E.pow_(x.t, E.C(Fraction(1, 2))), x.rank or 0)
+        if canon in ("add", "sub", "mul", "div"):
+            op = {"add": ast.Add(), "sub": ast.Sub(), "mul": ast.Mult(), "div": ast.Div()}[canon]
+            return self.binop(op, args[0], args[1], n)
+        if canon == "neg":
+            x = self.to_tv(args[0], n)
+            return TV(E.neg(x.t), x.rank or 0)
         if canon == "sum0":
             if len(args) != 2 or args[1] != 0:
                 raise self.err(n, "np.sum is modelled only as np.sum(x, 0)")
